@@ -25,7 +25,7 @@ from .simloop import OWNER
 
 TOPIC = "t"
 GROUP = "g"
-REQUEST_MS = 1500
+REQUEST_MS = 3000          # larger than the rebalance timeout: a JoinGroup / SyncGroup may sit in the coordinator's barrier that long
 SESSION_MS = 3000
 HEARTBEAT_MS = 300
 REBALANCE_MS = 2500
@@ -60,6 +60,10 @@ def run_scenario(sc: dict):
 
     def emit_ts(e, **f):
         r = _emit(e, **f)
+        if e == "JoinReply" and state.get("freeze_leader") and f.get("client") == "c2" and f.get("code") == 0 \
+                and f.get("leader") == f.get("member"):
+            state["freeze_leader"] = False
+            state["loop"].kill("c2", freeze=True)
         try:
             tstamps.append((e, state["loop"].time()))
         except Exception:  # noqa: BLE001
@@ -145,6 +149,13 @@ def run_scenario(sc: dict):
             # another instance with the same transactional id takes over: the sender task of the producer under test
             # dies with ProducerFenced at its next transactional request -- stop() comes afterwards
             cl.txn.fence("tx")
+        elif k == "syncstall":
+            # a rebalance starts and the group LEADER (the other member) dies right after its JoinGroup reply: the group
+            # sits in CompletingRebalance (the member under test waits in the SyncGroup barrier) until the leader's session expires
+            state["freeze_leader"] = True
+            g_ = gsim.group(GROUP)
+            if g_.state == "Stable" and len(g_.members) >= 2:
+                gsim._prepare_rebalance(g_)
         elif k == "groupauth":
             # the group's ACL is revoked: every group request is answered GROUP_AUTHORIZATION_FAILED from now on; the
             # error is pushed to the application, which may never poll again before it calls stop()
@@ -178,6 +189,11 @@ def run_scenario(sc: dict):
             except BaseException:  # noqa: BLE001
                 pass
 
+        if sc.get("other_first") and wl == "group":
+            # the other member is there first and therefore is (and stays) the group leader
+            asyncio.ensure_future(second_member(0))
+            OWNER.set("driver")
+            await asyncio.sleep(0.8)
         OWNER.set(name)
         if wl in ("producer", "idem", "txn"):
             kw = dict(bootstrap_servers="broker0:9092", client_id=name, request_timeout_ms=REQUEST_MS,
@@ -248,7 +264,7 @@ def run_scenario(sc: dict):
             workers = [asyncio.ensure_future(consume_loop())]
         state["workers"] = workers
         OWNER.set("driver")
-        if sc.get("other") is not None and wl == "group":
+        if sc.get("other") is not None and wl == "group" and not sc.get("other_first"):
             asyncio.ensure_future(second_member(sc["other"]))
 
         stop_at = sc.get("stop_at")
@@ -323,7 +339,8 @@ def run_scenario(sc: dict):
         for w in workers:
             w.cancel()
         await asyncio.sleep(0.5)
-        log.emit("End", **snapshot())
+        g2 = gsim.group(GROUP)
+        log.emit("End", still_member=any(str(m.id).startswith(name + "-m") for m in g2.members.values()), **snapshot())
 
     try:
         with W:
